@@ -14,6 +14,8 @@ NEUTRALS = [{'name': 'velocity via local alias', 'file': 'partitura/io/exportmid
 
 # changes made by sub-agents that were given only the property text (see /verif/seeded/<id>/): each must stay reported
 SEEDED = [
+    {'name': 'seeded change C04-r5b', 'seed': 'C04-r5b', 'expect': '|F5e-pairing|'},
+    {'name': 'seeded change C04-r5a', 'seed': 'C04-r5a', 'expect': '|PPQ-all|'},
     {'name': 'seeded change C04-r4b', 'seed': 'C04-r4b', 'expect': '|SETDEFAULT|'},
     {'name': 'seeded change C04-r4a', 'seed': 'C04-r4a', 'expect': '|PPQ-all|'},
     {'name': 'seeded change C04-r3', 'seed': 'C04-r3', 'expect': '|F10-pre|'},
